@@ -1,28 +1,28 @@
 SPECIFICATION Spec
 CONSTANTS
-  Tables <- MCTablesQ
+  Tables <- MCTables
   Bytes <- MCBytes
-  MaxBytes = 5
-  MaxLines = 1
+  MaxBytes = 8
+  MaxLines = 2
   Codes <- MCCodes
   VarRets = {0}
-  WrChoices = {TRUE, FALSE}
+  WrChoices = {TRUE}
   RdNone = TRUE
   Trigs <- MCTrigs
   MaxTrig = 1
-  HxSet = {}
-  MaxHx = 0
+  HxSet <- HxBoth
+  MaxHx = 2
   Queries = TRUE
   LockRets = {0}
   MaxLockFail = 0
   Toggles = {}
   MaxToggle = 0
   Edits = FALSE
-  Prefix <- NoPrefix
+  Prefix <- MCPrefix
   MaxHavoc = 0
   KeepRec = FALSE
   NestedTrigs = {}
-  NestedHx = {}
+  NestedHx <- HxBoth
   EvMayHold = FALSE
 INVARIANT NoBad
 INVARIANT Structural
